@@ -6,7 +6,7 @@
 (* produces the same results), and no call may panic.                       *)
 EXTENDS Naturals, Sequences, TLC
 
-PerPacket(kind) == kind \in {"vp8", "vp9", "h265", "h265_donl", "opus"}
+PerPacket(kind) == kind \in {"vp8", "vp9", "h265", "h265_donl", "h265_toggle", "opus"}
 OwnsState(kind) == kind \in {"h264", "h264_avc", "av1"}
 Ok(r) == r = "ok"
 
